@@ -205,8 +205,11 @@ def run(ctx, rep):
                     for s in bl["s"]:
                         if s["rv"]["r"] == "bin" and s["rv"]["op"] == "Le":
                             le = True
-        nb = [t for _, t in db.calls() if re.search(r"DoubleEndedIterator>::next_back$", callee_name(t))]
-        rep.check("C06.table", "seek point = last point with sample_offset <= target (filter .. next_back)", le and len(nb) == 1, loc_of(db))
+        names = [strip_generics(callee_name(t)).rsplit("::", 1)[-1] for _, t in db.calls()]
+        # idioms for "the last element satisfying the predicate": filter(p).next_back() / filter(p).last() / rev().find(p) / rfind(p)
+        last_idiom = ("filter" in names and ("next_back" in names or "last" in names)) or ("rev" in names and "find" in names) or "rfind" in names
+        first_idiom = ("filter" in names and "next" in names and "next_back" not in names and "last" not in names) or ("find" in names and "rev" not in names)
+        rep.check("C06.table", "seek point = last point with sample_offset <= target (filter .. next_back)", le and last_idiom and not first_idiom, loc_of(db), str([n for n in names if n in ("filter", "next_back", "last", "rev", "find", "rfind", "next")]))
         ca = [t for _, t in db.calls() if re.search(r"<impl u64>::checked_add$", callee_name(t))]
         goodca = len(ca) == 1 and 2 in backward_slice(db, ca[0]["a"][0])["args"] and "byte_offset" in backward_slice(db, ca[0]["a"][1])["fields"]
         rep.check("C06.table", "byte target = position of the first frame + the point's byte offset (checked)", goodca, loc_of(db))
